@@ -65,12 +65,16 @@ def printer_tasks(tier):
     for m in tokens.METHODS:
         ts.append(Task('tokens.%s' % m, 'contracts.tokens:task_method', method=m))
     ts.append(Task('tokens.callsites', 'contracts.tokens:task_callsites'))
+    ts.append(Task('tokens.delimiter', 'contracts.tokens:task_delimiter'))
     ts.append(Task('printer.FormattedValue.is_curly', 'contracts.printer:task_is_curly'))
     ts.append(Task('standin.enum_print.depth2', 'contracts.printer:task_standin', standin='enum_print depth 2', script='enum_print.py',
                    args=['--depth', '2'], bound='every (slot, child kind) pair of spec/astlib.py, nesting depth 2, strict re-parse'))
     ts.append(Task('standin.fstring_curly', 'contracts.printer:task_standin', standin='f-string field opening', script='fstring_curly.py',
                    args=['--depth', '2' if tier == 'quick' else '3'],
                    bound='6 brace-opening displays under every chain (depth 2 quick / 3 thorough) of 24 left-most wrappers x 3 field endings; strict re-parse'))
+    ts.append(Task('standin.stmt_layout', 'contracts.printer:task_standin', standin='statement layout', script='stmt_layout.py',
+                   args=[] if tier == 'quick' else ['--triples', '20000'],
+                   bound='every ordered pair of 40 statement templates (all simple and compound statement kinds) in 12 suite contexts, all transforms off, strict re-parse'))
     ts.append(Task('standin.literal_pool', 'contracts.printer:task_standin', standin='literal pool', script='literal_pool.py', args=[],
                    bound='constants of every type plus 7 mantissas (1 to 17 significant digits) in each of 65 decades x 19 token contexts, and 39 parsed sources; strict re-parse'))
     if tier == 'thorough':
